@@ -107,6 +107,16 @@ def make_instance(cls, rng, depth=2, fill=0.7, foreign=0.0, stats=None, want_tex
         if inst.extension_attributes is None:
             inst.extension_attributes = {}
         inst.extension_attributes["{urn:verif:foreign}fa%d" % rng.randint(0, 3)] = rng.choice(ATTR_SAMPLES)
+        # unknown to the class all the same: qualified with the class's own namespace, local name equal to / different from a declared attribute,
+        # and a declared local name in a foreign namespace
+        declared = [a for a in cls.c_attributes if not a.startswith("{")]
+        r = rng.random()
+        if declared and r < 0.35:
+            inst.extension_attributes["{%s}%s" % (cls.c_namespace, rng.choice(declared))] = "own-ns-" + gen.word(rng, 2, 4)
+        elif declared and r < 0.55:
+            inst.extension_attributes["{urn:verif:foreign}%s" % rng.choice(declared)] = "foreign-ns-" + gen.word(rng, 2, 4)
+        elif r < 0.7:
+            inst.extension_attributes["{%s}verifExtra" % cls.c_namespace] = "own-ns-extra"
         ee = ExtensionElement("Foreign%d" % rng.randint(0, 3), namespace="urn:verif:foreign",
                               attributes={"k": rng.choice(ATTR_SAMPLES)}, text=rng.choice(TEXT_SAMPLES))
         if rng.random() < 0.5:
